@@ -96,7 +96,7 @@ class ToggleSpec(Spec):
 
     def __init__(self, cfg, tier):
         super().__init__(cfg, tier)
-        self.time_budget = 200 if tier == "quick" else 840
+        self.time_budget = 600 if tier == "quick" else 840
         self.host = DrivenHost(gap=cfg["gap"], pace=cfg["pace"], ready_period=cfg["ready"], extra=dict(connect=1))
         self.eps = tuple(e for e in EPS if (e != "out1" or cfg["out"]) and (e != "in2" or cfg["in2"]))
         self._probe_cache = {}
